@@ -289,6 +289,13 @@ class Eval:
         base = self.ev(base_t)
         if isinstance(base, WH) is False and isinstance(base, tuple):
             pass
+        if isinstance(base, M) and idx[0] == "tuple" and len(idx[1]) == 2 and set(idx[1]) <= {("$i",), ("$j",)} and "*" in base.d:
+            a_, b_ = base.d["*"]
+            if self.diagonal or idx[1][0] == idx[1][1]:
+                if not self.diagonal:
+                    raise Inconclusive("PW: a diagonal entry is read while the generic pair is off the diagonal")
+                return a_
+            return a_ if tuple(idx[1]) == (("$i",), ("$j",)) else b_
         if isinstance(base, M) and idx[0] == "tuple" and len(idx[1]) == 2:
             r, c = idx[1]
             if c == FULL and self.node_of(r) is not None:
@@ -527,8 +534,79 @@ class Eval:
             return lift(lambda e: E(P if signs.pos(e.sign) == N else e.sign), self.ev(args[0]))
         raise Inconclusive("PW: call %s outside the fragment" % d)
 
+    def comp_over_index_pairs(self, t):
+        """[(i, j) for (i, j) in itertools.combinations(range(p), 2) if cond(M[i, j], M[j, i])] and the same over itertools.product(range(p), repeat=2) /
+        two nested `for`s: the generic pair {i, j} is visited as (i, j) and / or (j, i); condition and element are evaluated in each visited orientation"""
+        _, kind, elt, gens = t
+        mats = [k_ for k_, v_ in self.env.items() if isinstance(v_, M) and "*" in v_.d]
+
+        def is_range_p(r_):
+            return r_[0] == "ext" and r_[1] == "range" and len(r_[2]) == 1 and r_[2][0][0] == "ext" and r_[2][0][1] == "len" and r_[2][0][2][0] in mats
+        mode = None
+        if len(gens) == 1:
+            it = gens[0][1]
+            conds = list(gens[0][2])
+            x, y = ("sub", ("elem", it), ("const", 0)), ("sub", ("elem", it), ("const", 1))
+            if it[0] == "ext" and it[1] == "itertools.combinations" and len(it[2]) == 2 and is_const(it[2][1], 2) and is_range_p(it[2][0]) and not it[3]:
+                mode = "combinations"
+            elif it[0] == "ext" and it[1] == "itertools.product" and ((len(it[2]) == 1 and dict(it[3]).get("repeat") == ("const", 2) and is_range_p(it[2][0])) or
+                                                                      (len(it[2]) == 2 and not it[3] and is_range_p(it[2][0]) and it[2][1] == it[2][0])):
+                mode = "product"
+                if len(it[2]) == 2:
+                    x, y = ("elem", it[2][0]), ("elem", it[2][1])
+        elif len(gens) == 2 and is_range_p(gens[0][1]) and gens[1][1] == gens[0][1] and not gens[0][2]:
+            mode = "product-nested"          # the two loop variables range over the same term: their elements are not told apart by the term alone
+            return None
+        if mode is None:
+            return None
+        I_, J_ = ("$i",), ("$j",)
+
+        def subst(u, a, b):
+            if u == x:
+                return a
+            if u == y:
+                return b
+            return tuple(subst(z, a, b) for z in u) if isinstance(u, tuple) else u
+
+        def truth(v):
+            if isinstance(v, bool):
+                return v
+            if isinstance(v, E):
+                return nzb(v)
+            raise Inconclusive("PW: filter of a comprehension over index pairs is not a decided condition on the entries")
+        out = {"ij": False, "ji": False}
+        vals = {"ij": None, "ji": None}
+        orientations = [(I_, J_, "A")] if self.diagonal else [(I_, J_, "A"), (J_, I_, "B")]
+        for a, b, name in orientations:
+            if self.diagonal:
+                visited = mode != "combinations"
+            elif mode == "combinations":
+                g = self.atom("g")                         # i > j: combinations visits the pair as (smaller, larger)
+                visited = (not g) if name == "A" else g
+            else:
+                visited = True
+            if not visited:
+                continue
+            keep = True
+            for c in conds:
+                keep = band(keep, truth(self.ev(subst(c, a, b))))
+            e_ = subst(elt[1] if kind == "dict" and elt[0] == "pair" else elt, a, b)
+            if not (e_[0] == "tuple" and len(e_[1]) == 2 and set(e_[1]) == {I_, J_}):
+                return None
+            which = "ij" if tuple(e_[1]) == (I_, J_) else "ji"
+            out[which] = bor(out[which], keep)
+            if kind == "dict":
+                v_ = self.ev(subst(elt[2], a, b))
+                vals[which] = v_ if vals[which] is None else vals[which]
+        if kind == "dict":
+            return MAP(PS(out["ij"], out["ji"]), vals["ij"], vals["ji"])
+        return PS(out["ij"], out["ji"])
+
     def t_comp(self, t):
         _, kind, elt, gens = t
+        got = self.comp_over_index_pairs(t)
+        if got is not None:
+            return got
 
         def rowcol(it):
             # the spellings of (row, column) of the pair the generator stands at
